@@ -19,6 +19,13 @@ fn roundtrip(prop: &str, c: &BuildCase) -> Verdict {
     }
     let mut expected = expected_observation(&c.spec);
     let mut observed = observed;
+    // a reason that was set to the empty string: "the same reason bytes" are no bytes, whether the view
+    // reports them as absent or as an empty text (only a reason that was never set has to be absent)
+    if let PacketSpec::Bye(b) = &c.spec {
+        if b.reason.as_deref() == Some("") && observed.get("reason") == Some(&Value::String(String::new())) {
+            expected["reason"] = Value::String(String::new());
+        }
+    }
     // the FCI is compared after everything else so that the known finding about empty SLI/FIR lists
     // cannot hide a difference elsewhere in the same packet
     let (efci, ofci) = match (&mut expected, &mut observed) {
